@@ -138,10 +138,13 @@ pub fn main(opts: &Opts) {
     for kind in reply::KINDS {
         let seeds = seeds_reply(kind);
         for s in &seeds {
-            // truncation at every byte for the first seed of each kind (exhaustive)
-            if std::ptr::eq(s, &seeds[0]) {
-                for p in 0..s.len() {
-                    jobs.push((kind.to_string(), s.as_bytes()[..p].to_vec()));
+            // truncation at every byte of every seed (exhaustive), with and without a trailing delimiter
+            for p in 0..s.len() {
+                jobs.push((kind.to_string(), s.as_bytes()[..p].to_vec()));
+                if p % 3 == 0 || s.as_bytes()[p] == b'<' {
+                    let mut t = s.as_bytes()[..p].to_vec();
+                    t.extend_from_slice(b"]]>]]>");
+                    jobs.push((kind.to_string(), t));
                 }
             }
         }
@@ -150,7 +153,7 @@ pub fn main(opts: &Opts) {
             jobs.push((kind.to_string(), mutate(s.as_bytes(), &mut rng)));
         }
     }
-    let results = run_pool(jobs.clone(), 16, |(kind, bytes)| {
+    let results = run_pool_watchdog(jobs.clone(), 16, Duration::from_secs(8), "timeout".to_string(), |(kind, bytes)| {
         let r = std::panic::catch_unwind(AssertUnwindSafe(|| {
             let rt = tokio::runtime::Builder::new_current_thread().enable_all().build().unwrap();
             rt.block_on(outcome_bytes(&kind, bytes))
@@ -182,7 +185,7 @@ pub fn main(opts: &Opts) {
     for _ in 0..n {
         hjobs.push(mutate(hello_seed.as_bytes(), &mut rng));
     }
-    let hres = run_pool(hjobs.clone(), 16, |bytes| {
+    let hres = run_pool_watchdog(hjobs.clone(), 16, Duration::from_secs(8), "timeout".to_string(), |bytes| {
         let r = std::panic::catch_unwind(AssertUnwindSafe(|| {
             let rt = tokio::runtime::Builder::new_current_thread().enable_all().build().unwrap();
             rt.block_on(async {
@@ -217,7 +220,7 @@ pub fn main(opts: &Opts) {
         rng.shuffle(&mut order);
         bjobs.push((k, garbage, order));
     }
-    let bres = run_pool(bjobs.clone(), 16, |(k, garbage, order)| {
+    let bres = run_pool_watchdog(bjobs.clone(), 16, Duration::from_secs(12), vec!["timeout".to_string()], |(k, garbage, order)| {
         let r = std::panic::catch_unwind(AssertUnwindSafe(|| {
             let rt = tokio::runtime::Builder::new_current_thread().enable_all().build().unwrap();
             rt.block_on(async {
